@@ -40,6 +40,22 @@ func plan(tier string, seed uint64, bin string) []run {
 		}
 	}
 	for _, kind := range []string{"bug", "identity"} {
+		depth := 3
+		if !quick {
+			depth = 4
+		}
+		runs = append(runs, run{fmt.Sprintf("remove %s, remotes named up, upstream, team/upstream, my.remote-2", kind),
+			Params{Seed: seed, Kind: kind, Others: 1, Names: "odd", Bin: bin}, depth})
+	}
+	{
+		depth := 2
+		if !quick {
+			depth = 3
+		}
+		runs = append(runs, run{"wipe, identity selected, remotes named up, upstream, team/upstream, my.remote-2",
+			Params{Seed: seed, Kind: "bug", Others: 1, Wipe: true, Names: "odd", Bin: bin}, depth})
+	}
+	for _, kind := range []string{"bug", "identity"} {
 		depth := 6
 		if !quick {
 			depth = 8
